@@ -120,14 +120,14 @@ impl CallingConvention {
                     il::scalar("x5", 64),
                     il::scalar("x6", 64),
                     il::scalar("x7", 64),
-                    il::scalar("v0", 64),
-                    il::scalar("v1", 64),
-                    il::scalar("v2", 64),
-                    il::scalar("v3", 64),
-                    il::scalar("v4", 64),
-                    il::scalar("v5", 64),
-                    il::scalar("v6", 64),
-                    il::scalar("v7", 64),
+                    il::scalar("v0", 128),
+                    il::scalar("v1", 128),
+                    il::scalar("v2", 128),
+                    il::scalar("v3", 128),
+                    il::scalar("v4", 128),
+                    il::scalar("v5", 128),
+                    il::scalar("v6", 128),
+                    il::scalar("v7", 128),
                 ];
                 let mut preserved_registers = HashSet::new();
                 preserved_registers.insert(il::scalar("x19", 64));
@@ -140,6 +140,8 @@ impl CallingConvention {
                 preserved_registers.insert(il::scalar("x26", 64));
                 preserved_registers.insert(il::scalar("x27", 64));
                 preserved_registers.insert(il::scalar("x28", 64));
+                preserved_registers.insert(il::scalar("x29", 64));
+                preserved_registers.insert(il::scalar("sp", 64));
 
                 preserved_registers.insert(il::scalar("v8", 128));
                 preserved_registers.insert(il::scalar("v9", 128));
@@ -171,30 +173,30 @@ impl CallingConvention {
                 trashed_registers.insert(il::scalar("x17", 64));
                 // trashed_registers.insert(il::scalar("x18", 64)); // platform-dependent
 
-                trashed_registers.insert(il::scalar("x0", 128));
-                trashed_registers.insert(il::scalar("x1", 128));
-                trashed_registers.insert(il::scalar("x2", 128));
-                trashed_registers.insert(il::scalar("x3", 128));
-                trashed_registers.insert(il::scalar("x4", 128));
-                trashed_registers.insert(il::scalar("x5", 128));
-                trashed_registers.insert(il::scalar("x6", 128));
-                trashed_registers.insert(il::scalar("x7", 128));
-                trashed_registers.insert(il::scalar("x16", 128));
-                trashed_registers.insert(il::scalar("x17", 128));
-                trashed_registers.insert(il::scalar("x18", 128));
-                trashed_registers.insert(il::scalar("x19", 128));
-                trashed_registers.insert(il::scalar("x20", 128));
-                trashed_registers.insert(il::scalar("x21", 128));
-                trashed_registers.insert(il::scalar("x22", 128));
-                trashed_registers.insert(il::scalar("x23", 128));
-                trashed_registers.insert(il::scalar("x24", 128));
-                trashed_registers.insert(il::scalar("x25", 128));
-                trashed_registers.insert(il::scalar("x26", 128));
-                trashed_registers.insert(il::scalar("x27", 128));
-                trashed_registers.insert(il::scalar("x28", 128));
-                trashed_registers.insert(il::scalar("x29", 128));
-                trashed_registers.insert(il::scalar("x30", 128));
-                trashed_registers.insert(il::scalar("x31", 128));
+                trashed_registers.insert(il::scalar("v0", 128));
+                trashed_registers.insert(il::scalar("v1", 128));
+                trashed_registers.insert(il::scalar("v2", 128));
+                trashed_registers.insert(il::scalar("v3", 128));
+                trashed_registers.insert(il::scalar("v4", 128));
+                trashed_registers.insert(il::scalar("v5", 128));
+                trashed_registers.insert(il::scalar("v6", 128));
+                trashed_registers.insert(il::scalar("v7", 128));
+                trashed_registers.insert(il::scalar("v16", 128));
+                trashed_registers.insert(il::scalar("v17", 128));
+                trashed_registers.insert(il::scalar("v18", 128));
+                trashed_registers.insert(il::scalar("v19", 128));
+                trashed_registers.insert(il::scalar("v20", 128));
+                trashed_registers.insert(il::scalar("v21", 128));
+                trashed_registers.insert(il::scalar("v22", 128));
+                trashed_registers.insert(il::scalar("v23", 128));
+                trashed_registers.insert(il::scalar("v24", 128));
+                trashed_registers.insert(il::scalar("v25", 128));
+                trashed_registers.insert(il::scalar("v26", 128));
+                trashed_registers.insert(il::scalar("v27", 128));
+                trashed_registers.insert(il::scalar("v28", 128));
+                trashed_registers.insert(il::scalar("v29", 128));
+                trashed_registers.insert(il::scalar("v30", 128));
+                trashed_registers.insert(il::scalar("v31", 128));
 
                 // TODO: FPSR, NZCV, SVE
 
@@ -205,7 +207,7 @@ impl CallingConvention {
                     preserved_registers,
                     trashed_registers,
                     stack_argument_offset: 0,
-                    stack_argument_length: 4,
+                    stack_argument_length: 8,
                     return_address_type: return_type,
                     return_register: il::scalar("x0", 64),
                 }
